@@ -63,11 +63,21 @@ def task_mirvc(ctx, module):
             # attach a concrete failing input on the real code
             try:
                 import search
-                n, v = search.search_spec(get_driver(), spec, ctx.seed, nrand=32, max_cases=600)
+                v = None
+                # first the verifier's own counterexample (witness of the failed path), then the directed search
+                for o in r.obligations:
+                    w = o.get('cex') or {}
+                    if o['status'] == 'refuted' and w.get('args') is not None:
+                        v = search.check_case(get_driver(), spec, w['args'])
+                        if v:
+                            v['source'] = 'mirvc path witness'
+                            break
+                if v is None:
+                    n, v = search.search_spec(get_driver(), spec, ctx.seed, nrand=32, max_cases=600)
                 if v:
                     violations.append(dict(obligation='mirvc/' + spec.fid, props=list(spec.prop), summary='%s(%s...) expected %s observed %s' % (
                         v['hook'], ','.join(a[:16] for a in v['args']), str(v['expected'])[:40], str(v['observed'])[:40]),
-                        replay=dict(kind='hook', **v), input_class=v['kind']))
+                        replay=dict(kind='hook', **v), input_class=v['failure']))
             except Exception as e:
                 obligations.append(dict(id='mirvc/%s/replay' % spec.fid, status='undecided', detail='replay search failed: %r' % (e,),
                                         seconds=0, engine='replay', function=spec.fid, props=list(spec.prop)))
@@ -91,7 +101,7 @@ def task_search(ctx, module):
         if v:
             violations.append(dict(obligation='mirvc/' + spec.fid, props=list(spec.prop), summary='%s(%s...) expected %s observed %s' % (
                 v['hook'], ','.join(a[:16] for a in v['args']), str(v['expected'])[:40], str(v['observed'])[:40]),
-                replay=dict(kind='hook', **v), input_class=v['kind']))
+                replay=dict(kind='hook', **v), input_class=v['failure']))
     return dict(violations=violations, searches=searches)
 
 # ---------------------------------------------------------------------------------------------
